@@ -786,9 +786,12 @@ mod imp {
     };
     let requests = case["requests"].as_array().cloned().unwrap_or_default();
     let mut pre: Vec<Option<Vec<(String, f64)>>> = Vec::new();
+    let mut model_reqs: Vec<Value> = Vec::new();
     for rq in &requests {
-      let r = run_request(drv, s, case, &fields, &built, &reader, rq, exact_regime);
+      let mut mreq = Value::Null;
+      let r = run_request(drv, s, case, &fields, &built, &reader, rq, exact_regime, &mut mreq);
       pre.push(r);
+      model_reqs.push(mreq);
     }
     if case["compact"].as_bool().unwrap_or(false) {
       s.count("compact.run");
@@ -801,7 +804,7 @@ mod imp {
               return;
             }
           };
-          for (rq, before) in requests.iter().zip(&pre) {
+          for ((rq, before), mreq) in requests.iter().zip(&pre).zip(&model_reqs) {
             let Some(before) = before else { continue };
             if before.is_empty() || !rq["vector_only"].as_bool().unwrap_or(false) {
               continue;
@@ -813,6 +816,18 @@ mod imp {
                 continue;
               }
             };
+            // correspondence: the model of compaction (re-ingest from stored fields, no vectors)
+            if !mreq.is_null() {
+              let mut m2 = mreq.clone();
+              m2["compacted"] = json!(true);
+              let mr = drv.call("C29", m2);
+              let mn = mr["hits"].as_array().map(|a| a.len());
+              if mr["outcome"] != json!("hits") || mn != Some(after.len()) {
+                s.disagree("compact.search", &json!({"kind": "index", "fields": fields, "commits": commits, "requests": [rq], "compact": true, "mem": mem}), json!(after), mr);
+              } else {
+                s.count("compact.model-agrees");
+              }
+            }
             let same = after.len() == before.len() && after.iter().zip(before).all(|(a, b)| near(a.1, b.1)) && {
               let mut x: Vec<&String> = after.iter().map(|a| &a.0).collect();
               let mut y: Vec<&String> = before.iter().map(|a| &a.0).collect();
@@ -849,7 +864,7 @@ mod imp {
 
   /// runs one request: correspondence + finder; returns the implementation's (ver, score) list
   #[allow(clippy::too_many_arguments)]
-  fn run_request(drv: &mut Driver, s: &mut Summary, case: &Value, fields: &[Value], built: &Built, reader: &searchlite_core::api::IndexReader, rq: &Value, exact_regime: bool) -> Option<Vec<(String, f64)>> {
+  fn run_request(drv: &mut Driver, s: &mut Summary, case: &Value, fields: &[Value], built: &Built, reader: &searchlite_core::api::IndexReader, rq: &Value, exact_regime: bool, model_req_out: &mut Value) -> Option<Vec<(String, f64)>> {
     let req = &rq["req"];
     let shape = rq["shape"].as_str().unwrap_or("?");
     let vector_only = rq["vector_only"].as_bool().unwrap_or(false);
@@ -927,7 +942,11 @@ mod imp {
       })
       .collect();
     let mreq = json!({"query": req["query"], "vector_query": req["vector_query"], "limit": limit, "candidate_size": req["candidate_size"]});
-    let mr = drv.call("C29", json!({"op": "search", "schema": model_schema(fields), "segments": segs_json, "req": mreq}));
+    let full_mreq = json!({"op": "search", "schema": model_schema(fields), "segments": segs_json, "req": mreq});
+    if vector_only {
+      *model_req_out = full_mreq.clone();
+    }
+    let mr = drv.call("C29", full_mreq);
     let model_class = mr["outcome"].as_str().unwrap_or("?").to_string();
     s.count(&format!("model.{model_class}"));
     let mut nontrivial = false;
